@@ -497,12 +497,65 @@ def translate_circle_segment():
 KERNELS = [translate_surface, translate_curve, translate_generic_quotient, translate_rotation_matrix, translate_circle_nets, translate_circle_segment]
 
 
+# ----------------------------------------------------------------------------
+# surface_factory.disc(type='square'): the hard-coded 3 x 3 rational control net (w = 1/sqrt(2) enters as a parameter)
+
+def translate_disc_square():
+    src = open(os.path.join(REPO, 'splipy', 'surface_factory.py')).read()
+    f = find_func(ast.parse(src), None, 'disc')
+    branch = None
+    for st in ast.walk(f):
+        if isinstance(st, ast.If) and "'square'" in ast.unparse(st.test):
+            branch = st.body
+    if branch is None:
+        raise TranslationError("disc: no branch for type == 'square'")
+    net = None
+    saw_w = False
+    for st in branch:
+        if isinstance(st, ast.Assign) and len(st.targets) == 1 and isinstance(st.targets[0], ast.Name):
+            nm = st.targets[0].id
+            if nm == 'w':
+                if ast.unparse(st.value).replace(' ', '') not in ('1/sqrt(2)', '1/np.sqrt(2)', '1.0/sqrt(2)'):
+                    raise TranslationError('disc(square): w is no longer 1/sqrt(2): %s' % ast.unparse(st.value))
+                saw_w = True
+            elif nm == 'cp':
+                if not isinstance(st.value, ast.List) or len(st.value.elts) != 9:
+                    raise TranslationError('disc(square): cp is not a literal list of nine points')
+                ex = Expr(lambda e: None, {'r', 'w'})
+                rows = []
+                for row in st.value.elts:
+                    if not isinstance(row, ast.List) or len(row.elts) != 3:
+                        raise TranslationError('disc(square): a control point is not a literal [x, y, w]')
+                    rows.append('[%s]' % '; '.join(ex.tr(x) for x in row.elts))
+                net = rows
+            elif nm in ('basis1', 'basis2', 'result'):
+                if nm.startswith('basis') and ast.unparse(st.value) != 'BSplineBasis(3)':
+                    raise TranslationError('disc(square): %s is no longer BSplineBasis(3)' % nm)
+            else:
+                raise TranslationError('disc(square): unsupported statement %s' % ast.unparse(st))
+        elif isinstance(st, ast.Return):
+            continue
+        else:
+            raise TranslationError('disc(square): unsupported statement %s' % ast.unparse(st))
+    if net is None or not saw_w:
+        raise TranslationError('disc(square): control net or weight not found')
+    out = ['(* GENERATED by harness/translate.py from splipy/surface_factory.py (disc, type square); do not edit *)',
+           'From Coq Require Import ZArith List.', 'From SplipyModel Require Import Model.Num.', 'Import ListNotations.', '',
+           '(* w stands for 1/sqrt(2); entry i + 3 j is control point (i, j), homogeneous *)',
+           'Definition disc_square_net_gen {F : Type} `{Num F} (v_r v_w : F) : list (list F) :=\n  [%s].\n' % ';\n   '.join(net)]
+    return 'DiscSquare.v', '\n'.join(out) + '\n'
+
+
+KERNELS.append(translate_disc_square)
+
+
 KERNEL_FILES = {'translate_surface': 'RatDerivSurface.v', 'translate_curve': 'RatDerivCurve.v',
                 'translate_generic_quotient': 'RatDerivGeneric.v', 'translate_rotation_matrix': 'RotationMatrix.v',
-                'translate_circle_nets': 'CircleNets.v', 'translate_circle_segment': 'CircleSegment.v'}
+                'translate_circle_nets': 'CircleNets.v', 'translate_circle_segment': 'CircleSegment.v',
+                'translate_disc_square': 'DiscSquare.v'}
 # which properties' proofs are about which regenerated kernel
 KERNEL_PROPERTIES = {'RatDerivSurface.v': ['C03'], 'RatDerivCurve.v': ['C03'], 'RatDerivGeneric.v': ['C03'],
-                     'RotationMatrix.v': ['C09', 'C13'], 'CircleNets.v': ['C13'], 'CircleSegment.v': ['C13']}
+                     'RotationMatrix.v': ['C09', 'C13'], 'CircleNets.v': ['C13'], 'CircleSegment.v': ['C13'], 'DiscSquare.v': ['C13']}
 FALLBACK = os.path.join(VERIF, 'coq', 'fallback_gen')
 FAILED = {}   # file name -> error text (this run)
 
